@@ -197,8 +197,9 @@ def write_evidence(ctx, level_text, obligations, n_viol, extra_assumptions):
     if n_ob == 0:
         ev["coverage"]["obligations"] = 1
         ev["coverage"]["discharged"] = 0
-    os.makedirs(os.path.join(VERIF, "evidence"), exist_ok=True)
-    with open(os.path.join(VERIF, "evidence", ctx.pid + ".json"), "w") as f:
+    evdir = os.environ.get("VERIF_EVIDENCE_DIR") or os.path.join(VERIF, "evidence")   # (the override is for dry runs against seeded changes)
+    os.makedirs(evdir, exist_ok=True)
+    with open(os.path.join(evdir, ctx.pid + ".json"), "w") as f:
         json.dump(ev, f, indent=1, default=str)
 
 
